@@ -530,4 +530,93 @@ theorem page_spec : PageSpec := by
   · exact page_spec_in s cap p e fuel h
   · exact page_spec_out s cap p e fuel hf h
 
+/-! ### constructor, `IsEmpty`, `TotalCount` -/
+
+section observers
+open Gen.Paginated
+
+theorem new_spec : NewBufferedPaginatedStore = toGen PStore.new 4 := by
+  rfl
+
+/-! ### `IsEmpty` -/
+
+theorem isEmpty_loop2 (l : List Rat) (u : Unit) :
+    BufferedPaginatedStore.IsEmpty.loop2 l u = if l.all (fun c => !(c > 0)) then .done () else .ret false := by
+  induction l with
+  | nil => rfl
+  | cons c r ih =>
+    unfold BufferedPaginatedStore.IsEmpty.loop2
+    by_cases hc : (0 : Rat) < c
+    · simp [hc]
+    · simp [hc, ih]
+
+theorem isEmpty_loop1 (ls : List (List Rat)) (u : Unit) :
+    BufferedPaginatedStore.IsEmpty.loop1 ls u
+      = if ls.all (fun l => l.all (fun c => !(c > 0))) then .done () else .ret false := by
+  induction ls with
+  | nil => rfl
+  | cons l r ih =>
+    unfold BufferedPaginatedStore.IsEmpty.loop1
+    dsimp only
+    rw [isEmpty_loop2]
+    by_cases hl : l.all (fun c => !(c > 0)) = true
+    · simp only [hl, if_true, List.all_cons, Bool.true_and]
+      exact ih
+    · simp only [hl, List.all_cons, Bool.false_and, Bool.false_eq_true, if_false]
+      rfl
+
+theorem isEmpty_spec (s : PStore) (cap : Int) (fuel : Nat) :
+    BufferedPaginatedStore.IsEmpty fuel (toGen s cap) = .ok s.isEmpty := by
+  unfold BufferedPaginatedStore.IsEmpty PStore.isEmpty
+  dsimp only
+  rw [isEmpty_loop1]
+  have hp : (toGen s cap).pages.all (fun l => l.all (fun c => !(c > 0)))
+      = s.pages.all (fun pg => pg.all (fun c => !(c > 0))) := by
+    rw [toGen_pages]
+    unfold pagesL
+    rw [← Array.all_toList, List.all_map]
+    congr 1
+    funext pg; exact Array.all_toList
+  rw [hp]
+  by_cases hb : s.buffer = []
+  · have h1 : ¬ ((0 : Int) < GoSem.len (toGen s cap).buffer) := by
+      rw [toGen_buffer, hb]; simp [GoSem.len]
+    rw [decide_eq_false h1, hb]
+    simp only [Bool.false_eq_true, if_false, List.isEmpty_nil, Bool.true_and]
+    cases s.pages.all (fun pg => pg.all (fun c => !(c > 0))) <;> rfl
+  · have h1 : ((0 : Int) < GoSem.len (toGen s cap).buffer) := by
+      rw [toGen_buffer]; unfold GoSem.len
+      have := List.length_pos_iff.mpr hb; omega
+    rw [decide_eq_true h1, if_pos rfl]
+    have : s.buffer.isEmpty = false := by simpa using hb
+    rw [this]; rfl
+
+/-! ### `TotalCount` -/
+
+theorem totalCount_loop2 (l : List Rat) (acc : Rat) :
+    BufferedPaginatedStore.TotalCount.loop2 l acc = .done (l.foldl (· + ·) acc) := by
+  induction l generalizing acc with
+  | nil => rfl
+  | cons c r ih => unfold BufferedPaginatedStore.TotalCount.loop2; exact ih _
+
+theorem totalCount_loop1 (ls : List (List Rat)) (acc : Rat) :
+    BufferedPaginatedStore.TotalCount.loop1 ls acc = .done (ls.foldl (fun acc l => l.foldl (· + ·) acc) acc) := by
+  induction ls generalizing acc with
+  | nil => rfl
+  | cons c r ih =>
+    unfold BufferedPaginatedStore.TotalCount.loop1
+    rw [totalCount_loop2]; exact ih _
+
+theorem totalCount_spec (s : PStore) (cap : Int) (fuel : Nat) :
+    BufferedPaginatedStore.TotalCount fuel (toGen s cap) = .ok s.totalCount := by
+  unfold BufferedPaginatedStore.TotalCount PStore.totalCount
+  simp only [toGen_buffer, toGen_pages, totalCount_loop1, Loop.elim_done, GoSem.len]
+  congr 1
+  unfold pagesL
+  rw [List.foldl_map, ← Array.foldl_toList]
+  congr 1
+  · funext acc pg; rw [Array.foldl_toList]
+
+end observers
+
 end DDS.GenPag
